@@ -406,23 +406,24 @@ func (h *harness) minimalCond(cfg *sconfig, chain []sym, c *cell) (string, cond)
 	return "", nil
 }
 
+// sigCache remembers, per (mismatch class, configuration shape), the violation
+// signature the expensive path (minimisation, witness) worked out, so that a
+// break which flips millions of cells costs one minimisation per shape.
+var sigCache sync.Map
+
 func (h *harness) report(cfg *sconfig, chain []sym, ci int, caseID string, frames []frame, script []byte, c *cell, want bool, clause string) {
-	var sc transaction.WitnessScope
-	signer := "none"
-	for i := range cfg.signers {
-		if cfg.signers[i].Account == c.hash {
-			sc = cfg.signers[i].Scopes
-			signer = scopeStr(sc)
-			break
-		}
+	sig := fmt.Sprintf("cell:%s:want=%v", clause, want)
+	if c.phase == "native-transfer" || c.phase == "payment-from" {
+		sig += ":in-native-transfer"
 	}
-	sig := fmt.Sprintf("cell:%s:signer=%s:want=%v", clause, signer, want)
+	key := sig + "|" + cfg.part + "|" + cfg.shape
+	if v, ok := sigCache.Load(key); ok {
+		h.run.Violation(v.(string), caseID, "", nil) // counted under the signature already witnessed
+		return
+	}
 	minKind, minCond := h.minimalCond(cfg, chain, c)
 	if minKind != "" {
 		sig = "cell:condition=" + minKind // one mis-evaluated condition kind = one signature, whatever the verdict
-	}
-	if c.phase == "native-transfer" || c.phase == "payment-from" {
-		sig += ":in-native-transfer"
 	}
 	tc := "payment-from"
 	if c.target >= 0 {
@@ -435,6 +436,7 @@ func (h *harness) report(cfg *sconfig, chain []sym, ci int, caseID string, frame
 		detail += "; smallest sub-condition already evaluated differently: " + string(b)
 	}
 	h.run.Violation(sig, caseID, detail, h.witness(cfg, chain, frames, script, c, want, clause))
+	sigCache.Store(key, sig) // only after the witnessed report exists
 }
 
 func (h *harness) witness(cfg *sconfig, chain []sym, frames []frame, script []byte, c *cell, want bool, clause string) map[string]any {
